@@ -3,6 +3,11 @@ use std::{borrow::Cow, fmt::Debug};
 use wasm_bindgen::JsValue;
 
 /// A DOM renderer.
+#[cfg(not(leptos_verif))]
+pub mod dom;
+/// An in-memory DOM renderer with the same API (verification builds only).
+#[cfg(leptos_verif)]
+#[path = "native_dom.rs"]
 pub mod dom;
 
 /// The renderer being used for the application.
